@@ -34,6 +34,14 @@ CLAIMED = {
          "Structural necessary conditions for fault reports: the 'never changes balances, orders, shards or other pledges' clause is proved as absence of capability over the call graph; every write is dominated by the registered-node and fishman tests; a report is persisted only after provider/metadata/order/data-id/shard-listed/holder/unexpired tests; self-recovery only for faults recorded against the signer. Penalty <= holdings (numeric) is not decided.",
          "Trusts dependencies; over-approximate call graph (absence of capability is sound, presence may be spurious).",
          "DESIGN.md §3 C19"),
+ "C17": ("E2/E1: path-sensitive guard dominance for Binding/Update/UpdatePaymentAddress incl. for-all loops and helper summaries; data dependence of the signed payload; capability matrix of the binding tables",
+         "Structural necessary conditions of DID registry integrity for all paths and inputs of the three handlers: no table write without the tests the statement names; for-all requirements (every account handled, payment account never unbound) recognised as loops whose every iteration passes the test; the payload whose signature is verified must depend on the claimed DID and timestamp; binding tables written only from the handlers, genesis and the v2 migration. Whole-table agreement is not decided.",
+         "Trusts signature primitives and dependencies; CAIP-10 parsing is the repo's own helper (not re-verified).",
+         "DESIGN.md §3 C17"),
+ "C20": ("E2/E3/E5: interprocedural guard dominance of every store of the super role (conjoined up the call chain), must-follow demotion after each failing requirement, every-path reachability of the re-evaluation from share-affecting hooks, ordering checks in RemoveVstorage/Reset, D3 residue scan",
+         "Structural necessary conditions for the super-node role: promotion only under status mask AND capacity threshold AND delegation-share check (along every call chain); each failing requirement in the re-evaluation routine is followed by demotion; each share-affecting staking hook re-evaluates on every path and the hooks are registered with staking; capacity withdrawal re-tests after the decrement and demotes; Reset clears the role first; decision uses committed state only (D3). Agreement of the flag with the predicate over staking histories is not decided.",
+         "Trusts the staking keeper's hook call protocol as documented in DESIGN §1; dependencies trusted.",
+         "DESIGN.md §3 C20"),
 }
 
 NA_REASON = "check not implemented yet (framework under construction; see DESIGN.md section 3 for the planned structural clauses)"
